@@ -147,10 +147,11 @@ def consume(it):
     return out, None
 
 
-def check(ld, n, failing, plan, site, with_key, foreign_at, res, foreign_type=Foreign):
+def check(ld, n, failing, plan, site, with_key, foreign_at, res, foreign_type=Foreign,
+          warn=False):
     case = {'n': n, 'failing': sorted(failing), 'plan': plan, 'site': site,
             'with_key': with_key, 'foreign_at': foreign_at,
-            'foreign_type': foreign_type.__name__}
+            'foreign_type': foreign_type.__name__, 'warn': warn}
     exceptions, types = plans(ld)[plan]
     raiser = Raiser(failing, types, foreign_at, foreign_type)
     ds, model = build(ld, n, site, raiser)
@@ -159,10 +160,14 @@ def check(ld, n, failing, plan, site, with_key, foreign_at, res, foreign_type=Fo
     bad = set(failing)
     nontrivial = bool(bad) and len(bad) < n
     res.case((n, tuple(sorted(failing)), plan, site, with_key, foreign_at,
-              foreign_type.__name__), nontrivial)
-    sig = {'site': site, 'plan': plan, 'with_key': with_key}
+              foreign_type.__name__, warn), nontrivial)
+    sig = {'site': site, 'plan': plan, 'with_key': with_key, 'warn': warn}
     try:
-        c = ds.catch() if exceptions is None else ds.catch(exceptions)
+        if warn:
+            c = ds.catch(warn=True) if exceptions is None else \
+                ds.catch(exceptions, warn=True)
+        else:
+            c = ds.catch() if exceptions is None else ds.catch(exceptions)
         it = iter(c.items()) if with_key else iter(c)
     except BaseException as e:
         res.violation('catch-build-raised', case, exc_sig(e), sig=sig)
@@ -270,6 +275,8 @@ def run_shard(spec, res):
         for failing in subsets(n):
             for plan in plans(ld):
                 check(ld, n, failing, plan, site, wk, None, res)
+            for plan in ('default', 'tuple'):
+                check(ld, n, failing, plan, site, wk, None, res, warn=True)
             # one unlisted exception among the listed ones, at every position
             # that is not itself failing
             for fa in range(n):
@@ -302,4 +309,5 @@ def replay(case, res):
     ft = {'Foreign': Foreign, 'ForeignBase': ForeignBase, 'KeyError': KeyError}[
         case.get('foreign_type', 'Foreign')]
     check(ld, case['n'], case['failing'], case['plan'], case['site'],
-          case['with_key'], case['foreign_at'], res, foreign_type=ft)
+          case['with_key'], case['foreign_at'], res, foreign_type=ft,
+          warn=case.get('warn', False))
